@@ -4,7 +4,7 @@
     new <h> <kind> cap=<c> ids=<csv|-> [addr=<bytes> esize=<n> align=<n>]   create vector `h` (kind: box fixed bump mut rev)
     peek <h>                                                the vector is re-read (sibling check)
     op split_off <h> <start> <end> into=<h2> | op split_at <h> <at> into=<l>,<r> | op merge <a> <b> into=<m>
-       | op split_first <h> into=<f>,<r> | op split_last <h> into=<l>,<r>
+       | op split_first <h> into=<f>,<r> | op split_last <h> into=<l>,<r> | op partition <h> o=<outcomes> into=<l>,<r>
        answer `<h>:ids=…;len=…;cap=…;addr=<bytes|*> … exit=<ret|panic>` (the parts that exist afterwards)
     op <name> <h> <nat args…> [o=<outcomes>] [bombs=<csv>] [capin=<n>] [s=<f|b…>] [fin=<d|k>] [src=<csv>]
         (s: script of `next` / `next_back` calls on an iterator, fin: drop / keep_rest, src: ids of the appended slice)
@@ -116,6 +116,8 @@ def runOp (env : Env) (v : Vec) (name : String) (args : List Nat) (o : List Outc
   | "insert", [i, id] => some ((pack showUnit (insert env v i id)).map fun (a, b, _) => (a, b, o))
   | "extend_clone", [n] => some (pack showUnit (extendFromSliceClone env v n o))
   | "resize", [n, id] => some (pack showUnit (resize env v n id o))
+  | "resize_with", [n] => some (pack showUnit (resizeWith env v n o))
+  | "pop_if", [] => some (pack showOptId (popIf v o))
   | _, _ => none
 
 def showYields (l : List (Option Id)) : String :=
@@ -210,6 +212,15 @@ def handleSplit (d : DState) (name h : String) (rest : List String) : Option (DS
     match splitLast d.lay (partOf e) with
     | none => some (del d h, "exit=ret:none")
     | some (pl, pr) => some (putPart (putPart (del d h) l e.kind pl) r e.kind pr, s!"{showPart l pl} {showPart r pr} exit=ret")
+  | "partition", some e, some [], [l, r] =>
+    match parseOutcomes ((kvOf rest "o").getD "-") with
+    | none => none
+    | some o =>
+      match partition d.lay [] (partOf { e with vec := clearLogs e.vec }) o with
+      | .error f => some (d, showFault f)
+      | .ok (some (pl, pr), _, o') =>
+        some (putPart (putPart (del d h) l e.kind pl) r e.kind pr, s!"{showPart l pl} {showPart r pr} exit=ret used={o.length - o'.length}")
+      | .ok (none, v', o') => some (del d h, s!"drops={csv v'.dropLog} exit=panic used={o.length - o'.length}")
   | "merge", some e, _, [m] =>
     match rest.filter (fun t => !(t.contains '=')) with
     | [h2] =>
@@ -226,7 +237,7 @@ def handleSplit (d : DState) (name h : String) (rest : List String) : Option (DS
 def handleOp (d : DState) (toks : List String) : DState × String :=
   match toks with
   | name :: h :: rest =>
-    if name == "split_off" || name == "split_at" || name == "merge" || name == "split_first" || name == "split_last" then
+    if name == "split_off" || name == "split_at" || name == "merge" || name == "split_first" || name == "split_last" || name == "partition" then
       match handleSplit d name h rest with
       | some r => r
       | none => (d, "bad-op split")
